@@ -9,7 +9,9 @@ import collections
 import time
 import warnings
 
-from .. import core, ctxreplay, tlc
+import random
+
+from .. import core, ctxreplay, startup, tlc
 
 PROP = "C19"
 
@@ -74,15 +76,39 @@ def run(tier, seed):
         v = verdicts[c["id"]]
         if not v["ok"]:
             rep.violations.append(core.Violation(PROP, v["why"], f"C19:{v['why']}", {"decoration": c["row"]}, {}))
+    # decorated functions called inside components' start()/prepare(): the current context is a ComponentContext, whose non-optional
+    # lookups wait for the resource during start-up and whose optional ones must not (Startup.tla; monitor P_C06 on the recorded traces)
+    def pick(pairs, tier_, seed_):
+        rnd = random.Random(seed_)
+        pairs = sorted(pairs, key=lambda p: (p["fin"] != "ret", str(p["prog"]), str(p["hist"])))
+        rnd.shuffle(pairs)
+        gets = [p for p in pairs if any(op["k"] == "get" for sc in p["prog"]["ss"] + p["prog"]["sp"] for op in sc)]
+        return gets[:2500 if tier_ == "quick" else 40000]
+    cfg = open(tlc.SPECS / "MC_Startup_C06.cfg").read().replace("PrepOps <- Ops6Prep", "PrepOps <- Ops6PrepQuick")
+    cfgs = [("C06 family with lookups through @inject, 3 components", cfg)]
+    if tier != "quick":
+        cfgs.append(("C06 give-up family with lookups through @inject", open(tlc.SPECS / "MC_Startup_C06b.cfg").read()))
+    sub = startup.family_check(PROP, tier, seed, cfgs, "Trace_C06", {"found-published-before", "miss-opt", "waiting"}, pick, "", [], case_extra={"inject": True})
+    for v in sub.violations:
+        v.sig = "C19:component-context:" + v.sig.split(":", 1)[1]
+        v.why = "decorated call inside a component's start-up differs from the explicit lookup there: " + v.why
+        v.scenario = {"startup": v.scenario}
+    rep.violations += sub.violations
+    rep.states += sub.states
+    rep.transitions += sub.transitions
+    rep.extra["tlc_runs"] += sub.extra.get("tlc_runs", [])
+    rep.extra["inside_component_startup"] = {k: v for k, v in sub.extra.items() if k != "tlc_runs"} | {"executions": sub.traces_validated}
     fx = ctxreplay._fx()
-    rep.traces_validated = total["tours"]
+    rep.traces_validated = total["tours"] + sub.traces_validated
     rep.evaluations = total["edges"] + total["loops"] + total["prefix_steps"] + len(dec)
     rep.distinct_nontrivial = ninj
     rep.exhaustive = total.get("unexamined_ops", 0) == 0
     rep.rule = ("every Inject transition/outcome of the bounded Ctx graphs = one call of an @inject-decorated function from a task whose current "
                 "context is the acted-on context, compared with the specification's explicit lookup (result class, object identity, generation, "
                 "events, projection) and, on a difference, with the real explicit lookup; distinct_nontrivial = distinct (state, inject call) pairs; "
-                f"{len(fx._CACHE)} distinct decorated signatures were generated in the parent process' catalogue (workers build their own)")
+                f"{len(fx._CACHE)} distinct decorated signatures were generated in the parent process' catalogue (workers build their own); plus (program, "
+                "schedule) pairs of the Startup.tla look-up family executed with every lookup made through a decorated function called inside the "
+                "component's start()/prepare(), traces validated with the P_C06 monitor")
     rep.extra["decoration_rows"] = dec
     rep.assumptions = ["signature shapes are cycled from a grammar, not enumerated per state", "current context of the caller is provided by spawning the calling task inside the context"]
     return rep
@@ -93,5 +119,7 @@ def replay(scenario):
         dec = [c for c in decoration_cases() if c["row"] == scenario["decoration"]]
         verdicts, _, _ = core.validate_traces("Trace_C19", dec)
         return [core.Violation(PROP, v["why"], f"C19:{v['why']}", scenario) for v in verdicts.values() if not v["ok"]]
+    if "startup" in scenario:
+        return startup.replay_case(PROP, "Trace_C06", scenario["startup"])
     rep = run("quick", scenario.get("seed", 1))
     return rep.violations[:1]
